@@ -1986,6 +1986,13 @@ class InventoryTreeTransform(DiskTreeTransform):
         changed_kind = set(self._removed_contents)
         # so does adding
         changed_kind.intersection_update(self._new_contents)
+        # ... and so does giving contents to an entry that is versioned but
+        # missing on disk (nothing to remove first)
+        changed_kind.update(
+            t
+            for t in self._new_contents
+            if t in self._tree_id_paths and self.tree_kind(t) is None
+        )
         # Ignore entries that are already known to have changed.
         changed_kind.difference_update(changed_ids)
         #  to keep only the truly changed ones
